@@ -10,6 +10,7 @@ CONSTANTS
   Plus = "min"
   Times = "add"
   LeafKind = "lin"
+  Param = FALSE
   Tag = "sp_minadd"
 INVARIANT Inv_OracleInputs
 INVARIANT Emit
